@@ -87,6 +87,14 @@ def fix_rows():
     return '\n'.join(rows)
 
 
+def inventory():
+    out = []
+    for f in sorted(glob.glob(os.path.join(R, 'workpackages', 'inventory', 'C*.md'))):
+        body = open(f).read().strip()
+        out.append(f"#### {os.path.basename(f)[:-3]}\n\n" + body)
+    return '\n\n'.join(out) if out else '(no inventory files yet)'
+
+
 def main():
     s10 = open(os.path.join(R, 'tools', 'section10.md')).read()
     s10 = s10.replace('<!-- TABLE:evidence -->', evidence_table())
@@ -94,6 +102,7 @@ def main():
     s10 = s10.replace('<!-- KNOWNROWS -->', known_rows())
     s10 = s10.replace('<!-- FIXROWS -->', fix_rows())
     s10 = s10.replace('<!-- THEOREMS -->', theorem_list())
+    s10 = s10.replace('<!-- INVENTORY -->', inventory())
     p = os.path.join(R, 'DESIGN.md')
     d = open(p).read()
     a = d.index('## A. Appendix')
